@@ -27,7 +27,7 @@ def run(tier):
             cfg = j["config"]
             wb = os.path.join(tmp, "w%d.wb" % k); dat = os.path.join(tmp, "d%d.dat" % k)
             json.dump(terms.normalise(j["wb"]), open(wb, "w"))
-            sep = ", " if cfg["comma"] else " "
+            sep = ", " if cfg["comma"] else ("\t  " if cfg.get("sci") else " ")        # sci rows are separated by a tab and spaces
             with open(dat, "w") as f:
                 for ln in j["file"]:          # the file exactly as the specification lays it out
                     f.write((ln["opt"] if "opt" in ln else sep.join(ln["row"])) + "\n")
@@ -98,7 +98,7 @@ def run(tier):
         c.sample({"config": jobs[len(jobs) // 2]["config"], "options": jobs[len(jobs) // 2]["options"], "rows": jobs[len(jobs) // 2]["rows"][:2],
                   "header": jobs[len(jobs) // 2]["header"]})
         c.coverage["rule"] = ("every .dat configuration dim {2,3} x compositions 0..3 x grain compositions 0..2 x grains 0..3 x convert spherical x "
-                              "comma/space separated x option lines {all before the rows, all after the last row, spread between blocks of rows}, each run through the real gwb-dat on a world with distinguishable values in every slot; the "
+                              "comma/space separated x lengths written as metres or as \"<km>e3\" x option lines {all before the rows, all after the last row, spread between blocks of rows}, each run through the real gwb-dat on a world with distinguishable values in every slot; the "
                               "printed table is validated by TLC against the specified header / row shape and every cell compared with what the "
                               "library returns for that row in-process; plus four malformed-row files. non-trivial: all configurations")
         c.assumptions += ["a cell matches if it is what operator<< prints for the library value (%g, 6 significant digits)"]
